@@ -119,6 +119,9 @@ inline bool operator==(const rational_class &a, int b) { return a.num == b && a.
 inline int mp_sign(long j) { return j > 0 ? 1 : (j < 0 ? -1 : 0); }
 inline long mp_abs(long j) { return j < 0 ? -j : j; }
 inline bool mp_fits_ulong_p(long j) { return j >= 0; }
+inline bool mp_fits_slong_p(long j) { return true; }      /* the one-word model: every value fits a long */
+inline long mp_get_si(long j) { return j; }
+inline int mp_cmpabs(long a, long b) { unsigned long x = a < 0 ? 0ul - (unsigned long)a : (unsigned long)a, y = b < 0 ? 0ul - (unsigned long)b : (unsigned long)b; return x < y ? -1 : (x > y ? 1 : 0); }
 inline unsigned long mp_get_ui(long j) { return j < 0 ? 0ul - (unsigned long)j : (unsigned long)j; }
 #ifndef POW_MAX
 #define POW_MAX 4
